@@ -902,7 +902,7 @@ def k11_vect(prog, rep, only=None):
             why = "calls: %s, expected one call of %s" % ([c.callee for c in cs], want)
             if ok:
                 c = cs[0]
-                gs = [(op, L, R) for cond, truth in f.edge_conds(c) for op, L, R, _, _ in cond_atoms(cond, truth)]
+                gs = [(op, L, f.expand(R)) for cond, truth in f.edge_conds(c) for op, L, R, _, _ in cond_atoms(cond, truth)]
                 idx = [L for op, L, R in gs if op == "<" and R in ((">>", LEN, ("c", 2)), ("/", LEN, ("c", 4)))]
                 iw = [e for e in f.all_elems() if idx and (e.is_assign or e.is_incdec) and norm(e.kid(0)) == idx[0]]
                 steady = bool(idx) and bool(iw) and all((e.is_assign and e.op == "=" and norm(e.kid(1)) == ("c", 0)) or (e.is_incdec and e.op in ("post++", "pre++")) for e in iw)
